@@ -1,6 +1,7 @@
 package hcv
 
 import (
+	"os"
 	"fmt"
 	"go/token"
 	"sort"
@@ -547,6 +548,43 @@ func ruleValidatorGuards(c *Ctx, rule string) {
 				for _, lf := range condLeaves(dc.cond, dc.onTrue) {
 					if a, _, ok := c.An.AtomOf(lf.v); ok && (strings.HasPrefix(a.Key, "hdr.") && strings.HasSuffix(a.Key, ".present") || strings.HasPrefix(a.Key, "nil:")) {
 						continue
+					}
+					// the presence test on a validator that was read into a local or a struct member first
+					if bo, isB := lf.v.(*ssa.BinOp); isB && (bo.Op == token.EQL || bo.Op == token.NEQ) {
+						own := "Etag"
+						if k == "If-Modified-Since" {
+							own = "Last-Modified"
+						}
+						okLeaf := false
+						for _, side := range [][2]ssa.Value{{bo.X, bo.Y}, {bo.Y, bo.X}} {
+							if e, isK := constStr(side[1]); !isK || e != "" {
+								continue
+							}
+							roots := c.P.Roots(side[0], TraceOpts{NoHeapFields: true, NoParams: true})
+							if os.Getenv("HCV_DEBUG") != "" {
+								for _, r := range roots {
+									fmt.Fprintf(os.Stderr, "validator-guard %s root of %s: %T %s\n", k, side[0].Name(), r, r.String())
+								}
+							}
+							all := len(roots) > 0
+							for _, r := range roots {
+								if u, isU := r.(*ssa.UnOp); isU {
+									if _, local := u.X.(*ssa.Alloc); local {
+										continue // the load of a struct literal the value travels in
+									}
+								}
+								call, isCall := r.(*ssa.Call)
+								if !isCall || !isHeaderGetOf(call, own) {
+									all = false
+								}
+							}
+							if all {
+								okLeaf = true
+							}
+						}
+						if okLeaf {
+							continue
+						}
 					}
 					other = fmt.Sprintf("`%s` (%s)", lf.v.String(), c.P.Pos(lf.v.Pos()))
 				}
